@@ -106,12 +106,20 @@ def gen(tier, seed, chunk, nch):
         d = _decl(letter, rev, default, envw is not None)
         alpha = _alphabet(letter)
         seq = [rng2.choice(alpha) for _ in range(rng2.randint(4, 9))]
-        cases.append({"decl": d, "env": {ENVN: envw} if envw else {}, "argv": seq,
-                      "dv": [letter, rev, default, "random"]})
+        case = {"decl": d, "env": {ENVN: envw} if envw else {}, "argv": seq,
+                "dv": [letter, rev, default, "random"]}
+        if rng2.random() < 0.4:
+            case["reuse"] = rng2.choice([[], [], [b"--uu"], [b"--tog"], [b"--opt=v"]])
+        cases.append(case)
     return cases
 
 
 def script(cid, case):
+    if case.get("reuse"):
+        # the count is the number of occurrences also on a parser that has parsed before
+        text, _ = optrun.case_script(cid, case["decl"], case.get("env") or {},
+                                     [("parse", "A", case["reuse"]), ("parse", "A", case["argv"])])
+        return text
     return optoracle.single_script(cid, case)
 
 
@@ -130,11 +138,14 @@ def _wclass(w):
 
 
 def evaluate(case, lines, S):
-    line = next((l for l in lines if l.startswith("P ")), None)
+    plines = [l for l in lines if l.startswith("P ")]
+    line = plines[-1] if plines else None
     if line is None:
         S.inconc.append("no parse line")
         return
     d, env, argv = case["decl"], case["env"], case["argv"]
+    if case.get("reuse") is not None and "reuse" in case:
+        S.counters["second-parse-on-the-same-parser"] += 1
     w = env.get(ENVN)
     occ = sum(1 for t in argv if t in (b"--tog", b"-t", b"-tt", b"-tu", b"-ut", b"--no-tog"))
     S.counters["decl:letter=%s:rev=%s:default=%s" % tuple(case["dv"][:3])] += 1
